@@ -11,6 +11,7 @@ import (
 	"github.com/inbucket/inbucket/v3/pkg/extension"
 	"github.com/inbucket/inbucket/v3/pkg/message"
 	"github.com/inbucket/inbucket/v3/pkg/storage"
+	"github.com/inbucket/inbucket/v3/pkg/verifhook"
 )
 
 // Store implements an in-memory message store.
@@ -91,6 +92,7 @@ func (s *Store) AddMessage(message storage.Message) (id string, err error) {
 			}
 		}
 	})
+	verifhook.Point("mem.add.visible", m.mailbox, id)
 	s.enforcerDeliver(m)
 	return id, err
 }
